@@ -70,6 +70,20 @@ func ctxFromTimeout(v ssa.Value) (bool, string) {
 	}
 	id := engine.CalleeID(call.Common())
 	if id != "context.WithTimeout" && id != "context.WithDeadline" {
+		// a helper of the package that returns such a context on every return
+		// (stepContext(ctx) = context.WithTimeout(ctx, w.timeout))
+		if h := call.Common().StaticCallee(); h != nil && len(h.Blocks) > 0 && h.Pkg != nil && strings.HasSuffix(h.Pkg.Pkg.Path(), "/exchange") {
+			rets := engine.Returns(h)
+			all := len(rets) > 0
+			d := ""
+			for _, r := range rets {
+				ok, dd := ctxFromTimeout(r.Results[0])
+				all, d = all && ok, dd
+			}
+			if all {
+				return true, "via " + h.Name() + ": " + d
+			}
+		}
 		return false, engine.Describe(v)
 	}
 	d := engine.Describe(call.Common().Args[1])
